@@ -35,6 +35,7 @@ MIN = {'quick': {'distinct': 600,
                             'cli rcg as input': 5,
                             'cli source other than plain utf-8 export': 20, 'ambiguous word': 300,
                             'cli binarized markov': 10, 'fan-out >= 10': 30,
+                            'cli treebank of more than 1000 sentences': 8,
                             'lopar: production both continuous and '
                             'discontinuous': 10}},
        'thorough': {'distinct': 30000, 'hooks': {'cli.grammar': 1200}}}
@@ -556,6 +557,27 @@ def shard(ctx):
                 if rng.random() < 0.3 or not mk:
                     mk.append('nofanout')
                 case['markov'] = mk
+        run_cli(ctx, case, rng)
+    # treebanks of realistic length through the command line (whatever the
+    # driver does per so-many sentences: progress output, batches, flushes)
+    for i in ctx.indices(ctx.pick(16, 160)):
+        rng = ctx.rng('clibig', i)
+        fmt = rng.choice(['pmcfg', 'rcg'])
+        bank = []
+        want = rng.randint(1001, 1300) if rng.random() < 0.7 \
+            else rng.randint(2001, 2300)
+        while len(bank) < want:
+            for s_ in make_bank(rng, False, 'utf-8'):
+                s_['sid'] = len(bank) + 1
+                bank.append(s_)
+        case = {'kind': 'cli', 'fmt': fmt, 'enc': 'utf-8', 'lig': False,
+                'bank': bank, 'sfmt': 'export', 'senc': 'utf-8',
+                'gramtype': rng.choice(['treebank', 'leftright', 'leftright',
+                                        'optimal'])}
+        if case['gramtype'] != 'treebank' and rng.random() < 0.3:
+            case['markov'] = ['v:%d' % rng.randint(1, 2),
+                              'h:%d' % rng.randint(1, 2)]
+        ctx.stratum('cli treebank of more than 1000 sentences')
         run_cli(ctx, case, rng)
 
 
